@@ -48,6 +48,14 @@ func worldC20(w *World) {
 	if t.Rare(1, 4, "sigearly?") {
 		sigEarly = []time.Duration{100 * time.Millisecond, 1500 * time.Millisecond, 3500 * time.Millisecond, 7 * time.Second}[t.Choice(4, "sigearly")]
 	}
+	// a second signal may follow during the grace period; obtaining the cloud
+	// credentials at start-up may take a while
+	secondSig := time.Duration(-1)
+	if t.Rare(1, 4, "secondsignal?") {
+		secondSig = []time.Duration{time.Millisecond, 500 * time.Millisecond, 3 * time.Second}[t.Choice(3, "secondsignal")]
+	}
+	sig2 := []syscall.Signal{syscall.SIGINT, syscall.SIGTERM}[t.Choice(2, "which2")]
+	sim.CloudStartupDelay = []time.Duration{0, 0, 3 * time.Second}[t.Choice(3, "credentialsdelay")]
 	// the pending-list endpoint may start failing (from the n-th call on)
 	listFailFrom := -1
 	if t.Rare(1, 4, "listfails?") {
@@ -131,6 +139,16 @@ func worldC20(w *World) {
 	startAgent(w, args...)
 	var sigAt time.Duration = -1
 	var sigSeq uint64
+	sentSecond := false
+	second := func() {
+		if secondSig >= 0 && grace > secondSig {
+			time.Sleep(secondSig)
+			mu.Lock()
+			sentSecond = true
+			mu.Unlock()
+			w.K.Signal("agenthost", sig2)
+		}
+	}
 	w.K.Spawn("controller", func() {
 		if signal && sigEarly >= 0 {
 			time.Sleep(sigEarly)
@@ -139,6 +157,7 @@ func worldC20(w *World) {
 			sigSeq = w.K.Seq()
 			mu.Unlock()
 			w.K.Signal("agenthost", sig)
+			second()
 		} else if signal {
 			select {
 			case <-firstList:
@@ -148,6 +167,7 @@ func worldC20(w *World) {
 				sigSeq = w.K.Seq()
 				mu.Unlock()
 				w.K.Signal("agenthost", sig)
+				second()
 			case <-time.After(3 * time.Minute):
 			}
 		}
@@ -156,7 +176,7 @@ func worldC20(w *World) {
 		w.K.Stop()
 	})
 	w.K.Horizon = 30 * time.Minute
-	w.Sample = map[string]interface{}{"health": healthOn, "interval_s": interval, "threshold": threshold, "start_fails": nStartFail, "up_late": upLate.String(), "periodic": boolString(periodic), "signal": signal, "sig": sig.String(), "grace": grace.String(), "sig_delay": sigDelay.String(), "sig_at_fixed_time": sigEarly.String(), "list_fails_from": listFailFrom, "work_latency": workLat.String()}
+	w.Sample = map[string]interface{}{"health": healthOn, "interval_s": interval, "threshold": threshold, "start_fails": nStartFail, "up_late": upLate.String(), "periodic": boolString(periodic), "signal": signal, "sig": sig.String(), "grace": grace.String(), "sig_delay": sigDelay.String(), "sig_at_fixed_time": sigEarly.String(), "list_fails_from": listFailFrom, "second_signal_after": secondSig.String(), "credentials_delay": sim.CloudStartupDelay.String(), "work_latency": workLat.String()}
 	// tolerance for "exits when ...": the statement fixes the instants, not sub-second details
 	const eps = 300 * time.Millisecond
 	w.OnCheck(func() {
@@ -217,6 +237,9 @@ func worldC20(w *World) {
 		beforeWork := sigAt >= 0 && (len(calls) == 0 || sigSeq < calls[0].Seq)
 		if beforeWork && healthOn && (firstPass < 0 || sigAt < firstPass) {
 			w.Probe("signal_while_health_gated")
+		}
+		if sentSecond && !beforeWork {
+			w.Probe("second_signal_during_grace_period")
 		}
 		if listFailFrom >= 0 && sigAt >= 0 && grace > 0 && len(calls) > listFailFrom {
 			w.Probe("signal_while_list_calls_fail")
@@ -279,6 +302,17 @@ func worldC20(w *World) {
 					}
 				}
 				w.Probe("signal_during_list_call")
+			}
+			if inflight == nil {
+				for i := range calls {
+					if calls[i].Seq > sigSeq && calls[i].At > sigAt+tiny {
+						w.Violation("no-new-polls", "no list call was in flight at the signal (%v), yet a list call started at %v", sigAt, calls[i].At)
+						break
+					}
+				}
+				if len(calls) == 0 || calls[0].Seq > sigSeq {
+					w.Probe("signal_before_first_list_call")
+				}
 			}
 			if after > 1 {
 				w.Violation("no-new-polls", "%d list calls started at or after the signal (%v)", after, sigAt)
